@@ -89,14 +89,20 @@ func (g *Gen) isRing() bool {
 	return false
 }
 
-func (g *Gen) smtFor(o *Obligation) string {
+func (g *Gen) smtFor(o *Obligation) string { return g.smtForOpt(o, false) }
+
+// smtForOpt: full = keep the lines of every block (no control-flow slicing). Slicing usually helps, but on a few
+// obligations the solvers only succeed with the larger context (search-order luck), so stage 2 races both texts.
+func (g *Gen) smtForOpt(o *Obligation, full bool) string {
 	var b strings.Builder
 	b.WriteString("; obligation " + o.Name + "\n; " + o.Desc + "\n; at " + o.Pos + "\n")
 	b.WriteString(g.header())
+	g.tagMu.Lock()
 	if g.tagAnc == nil {
 		g.computeTagAnc()
 	}
-	noSlice := os.Getenv("GOVC_NOSLICE") != ""
+	g.tagMu.Unlock()
+	noSlice := os.Getenv("GOVC_NOSLICE") != "" || full
 	for i, l := range g.lines[:o.PrefixLen] {
 		if !noSlice && i < len(g.lineTag) && !g.isAncTag(g.lineTag[i], o.Tag) {
 			continue // produced by a block that cannot reach the obligation's block
@@ -130,6 +136,7 @@ type proofHint struct {
 	Solver string  `json:"solver"`
 	Seed   int     `json:"seed"`
 	Secs   float64 `json:"secs"`
+	Full   bool    `json:"full,omitempty"` // discharged on the unsliced text
 }
 
 var (
@@ -240,6 +247,10 @@ func discharge(g *Gen, o *Obligation, workDir string, timeout int, st *solverSta
 					hintsMu.Lock()
 					newHints[o.Name] = proofHint{Solver: m[1], Seed: sd, Secs: round3(r.secs)}
 					hintsMu.Unlock()
+				} else if strings.HasSuffix(r.solver, "(full context)") {
+					hintsMu.Lock()
+					newHints[o.Name] = proofHint{Solver: strings.TrimSuffix(r.solver, "(full context)"), Secs: round3(r.secs), Full: true}
+					hintsMu.Unlock()
 				} else if o.Time > 4 && (r.solver == "z3" || r.solver == "z3-new" || r.solver == "cvc5") {
 					hintsMu.Lock()
 					newHints[o.Name] = proofHint{Solver: r.solver, Secs: round3(r.secs)}
@@ -336,12 +347,21 @@ func discharge(g *Gen, o *Obligation, workDir string, timeout int, st *solverSta
 		if h.Seed != 0 {
 			sp = seededSpec(h.Solver, h.Seed)
 		}
+		hfile := file
+		if h.Full {
+			hfile = strings.TrimSuffix(file, ".smt2") + ".hintfull.smt2"
+			if os.WriteFile(hfile, []byte(g.smtForOpt(o, true)), 0o644) != nil {
+				hfile = file
+			} else {
+				defer os.Remove(hfile)
+			}
+		}
 		if sp.args != nil {
 			t0 := int(h.Secs*20) + 10
 			if t0 > timeout {
 				t0 = timeout
 			}
-			if finish(runSolver(context.Background(), sp, file, t0)) {
+			if finish(runSolver(context.Background(), sp, hfile, t0)) {
 				return
 			}
 			o.Output = ""
@@ -354,7 +374,18 @@ func discharge(g *Gen, o *Obligation, workDir string, timeout int, st *solverSta
 	done := race(stage1, t1)
 	if !done && timeout > t1 {
 		o.Output = ""
-		done = race(solvers, timeout)
+		stage2 := append([]solverSpec{}, solvers...)
+		if !o.MustSat && o.SMTFile != "" {
+			fullFile := strings.TrimSuffix(file, ".smt2") + ".full.smt2"
+			if os.WriteFile(fullFile, []byte(g.smtForOpt(o, true)), 0o644) == nil {
+				defer os.Remove(fullFile)
+				for _, sp := range []solverSpec{solvers[0], solvers[1]} {
+					sp := sp
+					stage2 = append(stage2, solverSpec{sp.name + "(full context)", func(f string, t int) []string { return sp.args(fullFile, t) }})
+				}
+			}
+		}
+		done = race(stage2, timeout)
 	}
 	if !done && !o.MustSat && timeout > t1 {
 		// stage 3: the same query under other case-split orders (random seeds): proofs that depend on the order in which
